@@ -1986,6 +1986,29 @@ def _positive_count(fn: Fn, g, e, at_node, _seen=None) -> bool:
             or (nonneg(l) and _positive_count(fn, g, r, at_node, seen))
     if isinstance(e, ast.NamedExpr):
         return _positive_count(fn, g, e.value, at_node, seen)
+    if isinstance(e, ast.Subscript) and isinstance(e.value, ast.Name) and isinstance(e.slice, ast.Constant) and e.slice.value == 1:
+        # `outcome[1]` of a local holding the whole run_rules result, used directly
+        w = e.value.id
+        RDw = _RD.get(id(fn.node))
+        if RDw is None:
+            RDw = _RD[id(fn.node)] = reaching_definitions(g, fn.params)
+        wdefs = RDw.get(at_node, {}).get(w)
+        if not wdefs or any(d < 0 for d in wdefs):
+            return False
+        for d in wdefs:
+            a = g.nodes[d].ast
+            if not (isinstance(a, ast.Assign) and isinstance(a.value, ast.Call) and isinstance(a.value.func, ast.Attribute)
+                    and a.value.func.attr == "run_rules"):
+                return False
+            tests = {}
+            for tn in g.nodes:
+                if tn.kind == "test" and tn.ast is not None:
+                    sd = _truthy_side(tn.ast, {f"{w}[0]"})
+                    if sd is not None:
+                        tests[tn.id] = sd
+            if not tests or d == at_node or not _only_through(g, d, at_node, tests, fn):
+                return False
+        return True
     if not isinstance(e, ast.Name):
         return False
     if (e.id, at_node) in seen:
